@@ -59,16 +59,24 @@ Fixpoint last_idx (certs : list cert) (n : str) : option nat :=
               end
   end.
 
+(* the set as the index sees it: every certificate name lower-cased (DNS names compare
+   case-insensitively) *)
+Definition folded (certs : list cert) : list cert := map (map lower) certs.
+Lemma folded_length certs : length (folded certs) = length certs.
+Proof. apply map_length. Qed.
+
 Lemma lookup_build_from certs : forall i n,
-  lookup_last (build_from i certs) n = option_map (Nat.add i) (last_idx certs n).
+  lookup_last (build_from i certs) n = option_map (Nat.add i) (last_idx (folded certs) n).
 Proof.
   induction certs as [|c r IH]; intros i n; [reflexivity|].
-  cbn [build_from last_idx]. rewrite lookup_last_app, IH, lookup_last_cert.
-  destruct (last_idx r n) as [w|]; cbn [option_map]; [f_equal; lia|].
-  destruct (mem n c); cbn [option_map]; [f_equal; lia | reflexivity].
+  cbn [build_from folded map last_idx]. fold (folded r).
+  replace (map (fun m => (lower m, i)) c) with (map (fun m => (m, i)) (map lower c)) by (now rewrite map_map).
+  rewrite lookup_last_app, IH, lookup_last_cert.
+  destruct (last_idx (folded r) n) as [w|]; cbn [option_map]; [f_equal; lia|].
+  destruct (mem n (map lower c)); cbn [option_map]; [f_equal; lia | reflexivity].
 Qed.
-Lemma lookup_build certs n : lookup_last (build_index certs) n = last_idx certs n.
-Proof. unfold build_index. rewrite lookup_build_from. now destruct (last_idx certs n). Qed.
+Lemma lookup_build certs n : lookup_last (build_index certs) n = last_idx (folded certs) n.
+Proof. unfold build_index. rewrite lookup_build_from. now destruct (last_idx (folded certs) n). Qed.
 
 Lemma last_idx_none certs n : last_idx certs n = None <-> none_with certs n.
 Proof.
@@ -123,7 +131,7 @@ Qed.
 (* ================= getCertificate meets the specification ================= *)
 Lemma get_cert_spec certs sn strict :
   certs <> [] -> (strict = true \/ 2 <= length certs)%nat ->
-  selects certs strict (normalize sn) (store_pick certs sn strict).
+  selects (folded certs) strict (normalize sn) (store_pick certs sn strict).
 Proof.
   intros Hne Hdom. unfold store_pick, get_certificate.
   destruct certs as [|c0 rest]; [contradiction|]. set (certs := c0 :: rest) in *.
@@ -132,14 +140,14 @@ Proof.
     destruct strict; [reflexivity|]. cbn [negb andb]. rewrite orb_false_r. apply Nat.eqb_neq. lia. }
   rewrite Hshort. rewrite lookup_build.
   set (name := normalize sn).
-  destruct (last_idx certs name) as [i|] eqn:E.
+  destruct (last_idx (folded certs) name) as [i|] eqn:E.
   - apply sel_exact. now apply last_idx_some.
   - apply last_idx_none in E.
     unfold candidates. set (labels := split_byte name 46).
     pose proof (first_hit_seq (build_index certs) (candidate labels) (length labels) 0) as H.
     destruct (first_hit (build_index certs) (map (candidate labels) (seq 0 (length labels)))) as [i|].
     + destruct H as (k & Hk & Hl & Hmin). rewrite lookup_build in Hl.
-      apply (sel_wild certs strict name k i); [exact E | fold labels; lia | | fold labels; now apply last_idx_some].
+      apply (sel_wild (folded certs) strict name k i); [exact E | fold labels; lia | | fold labels; now apply last_idx_some].
       intros k' Hk'. fold labels. apply last_idx_none. rewrite <- lookup_build. apply Hmin. lia.
     + apply sel_default; [exact E|]. intros k Hk. fold labels. apply last_idx_none.
       rewrite <- lookup_build. apply H. fold labels in Hk. lia.
@@ -152,14 +160,14 @@ Proof.
   set (certs := c0 :: rest).
   destruct (negb strict && _); [intros H; inversion H; cbn; lia|].
   rewrite lookup_build.
-  destruct (last_idx certs (normalize sn)) as [j|] eqn:E.
-  - intros H. inversion H; subst. now apply last_idx_lt in E.
+  destruct (last_idx (folded certs) (normalize sn)) as [j|] eqn:E.
+  - intros H. inversion H; subst. apply last_idx_lt in E. now rewrite folded_length in E.
   - pose proof (first_hit_seq (build_index certs) (candidate (split_byte (normalize sn) 46))
                   (length (split_byte (normalize sn) 46)) 0) as H.
     unfold candidates.
     destruct (first_hit _ _) as [j|].
     + destruct H as (k & _ & Hl & _). rewrite lookup_build in Hl. intros X. inversion X; subst.
-      now apply last_idx_lt in Hl.
+      apply last_idx_lt in Hl. now rewrite folded_length in Hl.
     + destruct strict; [discriminate|]. intros X. inversion X. cbn. lia.
 Qed.
 
@@ -170,13 +178,13 @@ Proof. reflexivity. Qed.
 (* strict listeners never fall back: no certificate unless a name or wildcard matches *)
 Lemma strict_none certs sn :
   store_pick certs sn true = PNone ->
-  none_with certs (normalize sn) /\
+  none_with (folded certs) (normalize sn) /\
   forall k, (k < length (split_byte (normalize sn) 46))%nat ->
-            none_with certs (candidate (split_byte (normalize sn) 46) k).
+            none_with (folded certs) (candidate (split_byte (normalize sn) 46) k).
 Proof.
   unfold store_pick, get_certificate. destruct certs as [|c0 rest]; [discriminate|].
   set (certs := c0 :: rest). cbn [negb andb]. rewrite lookup_build.
-  destruct (last_idx certs (normalize sn)) eqn:E; [discriminate|].
+  destruct (last_idx (folded certs) (normalize sn)) eqn:E; [discriminate|].
   pose proof (first_hit_seq (build_index certs) (candidate (split_byte (normalize sn) 46))
                 (length (split_byte (normalize sn) 46)) 0) as H.
   unfold candidates. destruct (first_hit _ _); [discriminate|]. intros _.
@@ -200,14 +208,20 @@ Qed.
 Lemma normalize_case a b : lower a = lower b -> normalize a = normalize b.
 Proof. unfold normalize. now intros ->. Qed.
 
-(* certificate names are NOT folded: a certificate named with an upper-case letter is
-   unreachable by its own name (the request is lower-cased, the index key is not) *)
+(* the index as it was before the repair: certificate names were NOT folded, so a
+   certificate named with an upper-case letter was unreachable by its own name (the
+   request is lower-cased, the index key was not) *)
 Lemma upper_case_cert_name_refuted :
-  exists certs sn, has_name certs 1 sn /\ store_pick certs sn false = PCert 0.
+  exists certs sn, has_name certs 1 sn /\
+    get_certificate certs (Some (build_from_unfolded 0 certs)) sn false = PCert 0.
 Proof.
   exists [[bs "a.com"%string]; [bs "Foo.com"%string]], (bs "Foo.com"%string).
   split; [exists [bs "Foo.com"%string]; split; [reflexivity | now left] | vm_compute; reflexivity].
 Qed.
+(* after the repair the same certificate is found, whatever the spelling on either side *)
+Lemma upper_case_cert_name_found :
+  store_pick [[bs "a.com"%string]; [bs "Foo.com"%string]] (bs "fOO.com."%string) false = PCert 1.
+Proof. vm_compute. reflexivity. Qed.
 
 (* ================= handshakes interleaved with set replacement ================= *)
 (* spec: the set current at the handshake's load, computed by a plain scan of the prefix *)
